@@ -36,6 +36,7 @@ def run(idx: ProgramIndex, rep: Report, tier: str):
     fixed_noise(idx, rep)
     noise_defaults(idx, rep)
     one_source(idx, rep)
+    raw_parameters_behind_their_constraint(idx, rep)
 
 
 def clamp_discipline(fi: FuncInfo, setting: str, value_names: Optional[List[str]] = None) -> List[str]:
@@ -314,3 +315,48 @@ def one_source(idx: ProgramIndex, rep: Report):
                         "`%s.%s = ...` replaces what __init__ derived through self.%s(...), but %s re-derive(s) it from the same ingredients and never see(s) the override: with fast_pred_var off the predictive covariance of the overridden model is the one of the un-overridden model (a variational fantasy model gets a *larger* variance after conditioning)" % (
                             obj, attr, "/".join(sorted(sig)), ", ".join(sorted(set(rederive)))), {"planted": sorted(x for x in planted if x)})
     rep.floor("C07-6", "external overrides of derived strategy attributes", n, 1)
+
+
+# ---- C07-7 ---------------------------------------------------------------------------------------------------------
+RAW_OK_CALLS = {"transform", "inverse_transform", "to", "type_as", "expand_as", "view_as", "new_tensor", "new_zeros", "new_ones"}
+RAW_OK_ATTRS = {"shape", "dtype", "device", "size", "dim", "ndim", "data", "requires_grad", "requires_grad_", "numel", "grad", "is_cuda"}
+
+
+def raw_parameters_behind_their_constraint(idx: ProgramIndex, rep: Report):
+    """The lower bounds of C07 are properties of the CONSTRAINED value (raw parameter through its constraint's transform).  The raw parameter
+    itself is unbounded (0 for a fresh softplus parameter, negative after an ordinary assignment): code that computes with `self.raw_x`
+    instead of `self.x` adds a "variance" that can be zero or negative.  A raw parameter may be read only to be transformed, for its
+    metadata (shape / dtype / device, `*_like`), or inside the accessors of its own constrained quantity."""
+    rep.rule("C07-7", "a raw (unconstrained) parameter is read only to be transformed, for its metadata, or inside the accessors of its own constrained quantity: computations use the constrained value, which carries the lower bound")
+    n = 0
+    for fi in sorted(idx.all_functions(), key=lambda f: (f.module.name, f.qualname)):
+        if fi.cls is None or fi.name in ("__init__", "_load_from_state_dict", "__setstate__"):
+            continue
+        parents = {}
+        for node in ast.walk(fi.node):
+            for ch in ast.iter_child_nodes(node):
+                parents[ch] = node
+        for x in ast.walk(fi.node):
+            if not (isinstance(x, ast.Attribute) and x.attr.startswith("raw_") and not x.attr.endswith("_constraint") and isinstance(x.value, ast.Name) and isinstance(x.ctx, ast.Load)):
+                continue
+            if x.value.id not in (fi.params[:1] + ["m", "module"]):
+                continue
+            n += 1
+            base = x.attr[len("raw_"):]
+            par = parents.get(x)
+            ok = False
+            if isinstance(par, ast.Call) and isinstance(par.func, ast.Attribute) and par.func.attr in RAW_OK_CALLS:
+                ok = True
+            if isinstance(par, ast.Call) and (chain(par.func) or "").endswith("_like"):
+                ok = True
+            if isinstance(par, ast.Attribute) and par.attr in RAW_OK_ATTRS:
+                ok = True
+            if isinstance(par, ast.keyword) or (isinstance(par, ast.Call) and isinstance(par.func, ast.Attribute) and par.func.attr in ("initialize", "register_parameter", "register_constraint")):
+                ok = True
+            if fi.name in (base, "_set_" + base, "_" + base + "_param", "_" + base + "_closure", "_get_" + base) or (fi.name.startswith("_set_") and base in fi.name):
+                ok = True  # the accessor / setter / closure of the constrained quantity itself
+            if not ok:
+                rep.add("C07-7", "%s:%s[self.%s]" % (fi.module.name, fi.qualname, x.attr), "%s:%d" % (fi.module.relpath, x.lineno), False,
+                        "`%s` computes with the raw parameter self.%s instead of the constrained self.%s: the raw value is unbounded (0 for a fresh parameter, negative after noise = 0.01), so what is added here has no lower bound - a zero or negative variance" % (" ".join(src(par).split())[:70] if par is not None else x.attr, x.attr, base), {})
+    rep.add("C07-7", "gpytorch:<reads of raw parameters>", "gpytorch/", True, "%d read(s) of raw parameters inspected" % n, {"reads": n}, trivial=True)
+    rep.floor("C07-7", "reads of raw parameters", n, 50)
